@@ -346,6 +346,9 @@ func c14ActiveCount(revs []c14Rev, pname string) int {
 
 // ---------------------------------------------------------------- run
 
+// c14LogTap, when set, receives the call log of every reconcile (used by the skeleton dump).
+var c14LogTap func([]CallInfo)
+
 func c14Run(s *c14Scn) (c14Obs, []Mon, string) {
 	obs := c14Obs{Recs: []c14RecObs{}, Revs: []c14Rev{}, Names: []string{}}
 	var mons []Mon
@@ -494,6 +497,9 @@ func c14Run(s *c14Scn) (c14Obs, []Mon, string) {
 			}
 			lastRes = ro.Res
 			log := append([]CallInfo{}, st.Log...)
+			if c14LogTap != nil {
+				c14LogTap(log)
+			}
 			for _, c := range log {
 				if c.Outcome != "" && c.Outcome != "ok" {
 					lastFault = c.Outcome + "->" + ro.Res // a fault that actually hit a call, and how that reconcile ended
@@ -953,7 +959,51 @@ var c14Probes = [][2]string{
 	{"xpkg.io/org/pkg:v1", "deadbeefdeadbeef"},
 }
 
+// c14SkeletonScn exercises every API call of Reconcile once: r2 is Active and not current
+// (deactivated), r1 is the oldest non-current (collected, limit 1), r3 is current and carries
+// commonLabels the package no longer has (Update after Apply). Xp.C14.skelStore is the same state.
+func c14SkeletonScn() c14Scn {
+	one := int64(1)
+	rev := func(n string, num int64, st string, lb []c14KV) c14Rev {
+		return c14Rev{Name: n, Parent: "p", Number: num, State: st, Ctrl: "u-p", Image: "img", Labels: lb}
+	}
+	return c14Scn{Kind: "Provider",
+		Pkg: c14Pkg{Name: "p", UID: "u-p", Spec: c14Spec{Source: "xpkg.io/org/pkg:v3", Limit: &one, Labels: []c14KV{}}},
+		Revs: []c14Rev{rev("p-1111111111aa", 1, "Inactive", []c14KV{}), rev("p-2222222222bb", 2, "Active", []c14KV{}), rev("p-3333333333cc", 3, "Inactive", []c14KV{{"a", "1"}})},
+		Steps: []c14Step{{Op: "reconcile", Head: c14Digests[2]}}}
+}
+
+func c14CallTag(c CallInfo) string {
+	kind := "other"
+	switch {
+	case strings.HasSuffix(strings.SplitN(c.GK, ".", 2)[0], "Revision"):
+		kind = "rev " + c.Name
+	case strings.HasPrefix(c.GK, "ImageConfig"):
+		kind = "imageconfigs"
+	case strings.HasPrefix(c.GK, "Provider"), strings.HasPrefix(c.GK, "Configuration"), strings.HasPrefix(c.GK, "Function"):
+		kind = "pkg"
+	}
+	v := c.Verb
+	if c.Sub != "" {
+		v = c.Sub
+	}
+	return strings.TrimSpace(v + " " + kind)
+}
+
 func init() {
+	RegisterDump("PkgNames", func() string {
+		var tags []string
+		c14LogTap = func(l []CallInfo) {
+			for _, c := range l {
+				tags = append(tags, c14CallTag(c))
+			}
+		}
+		s := c14SkeletonScn()
+		c14Run(&s)
+		c14LogTap = nil
+		return "/-- the API calls manager.Reconciler.Reconcile of the current tree issues, in order, on the skeleton scenario (harness/main/c14.go c14SkeletonScn) -/\n" +
+			"def pkgReconcileSkeleton : List String := " + leanStrList(tags) + "\n"
+	})
 	RegisterDump("PkgNames", func() string {
 		var sb strings.Builder
 		sb.WriteString("/-- xpkg.FriendlyID of the current tree on fixed probes: (name, hash, result) -/\n")
